@@ -95,41 +95,41 @@ func mSplit(N int) ([]byte, []byte) {
 	return x, y
 }
 
-//verif:props=C07 bounds=VScalars2;|x|+|y|<=3(quick)/5(thorough) maxsteps=8000000
+//verif:props=C07 bounds=VScalars2;|x|+|y|<=3(quick)/4(thorough) maxsteps=8000000
 func H_M3_scalars2() {
 	N := 3
 	if nd.Thorough() {
-		N = 5
+		N = 4
 	}
 	x, y := mSplit(N)
 	mMerge(0, x, y)
 }
 
-//verif:props=C07 bounds=VScalars3;|x|+|y|<=3(quick)/5(thorough) maxsteps=8000000
+//verif:props=C07 bounds=VScalars3;|x|+|y|<=3(quick)/4(thorough) maxsteps=8000000
 func H_M3_scalars3() {
 	N := 3
 	if nd.Thorough() {
-		N = 5
+		N = 4
 	}
 	x, y := mSplit(N)
 	mMerge(1, x, y)
 }
 
-//verif:props=C07 bounds=VRepeats;|x|+|y|<=3(quick)/5(thorough) maxsteps=8000000
+//verif:props=C07 bounds=VRepeats;|x|+|y|<=3(quick)/4(thorough) maxsteps=8000000
 func H_M3_repeats() {
 	N := 3
 	if nd.Thorough() {
-		N = 5
+		N = 4
 	}
 	x, y := mSplit(N)
 	mMerge(2, x, y)
 }
 
-//verif:props=C07 bounds=VNests;|x|+|y|<=3(quick)/5(thorough) maxsteps=8000000
+//verif:props=C07 bounds=VNests;|x|+|y|<=3(quick)/4(thorough) maxsteps=8000000
 func H_M3_nests() {
 	N := 3
 	if nd.Thorough() {
-		N = 5
+		N = 4
 	}
 	x, y := mSplit(N)
 	mMerge(3, x, y)
@@ -308,11 +308,11 @@ func mSetCaches(k int, p pointer) {
 // history of earlier Size/Marshal calls and mutations), the sequence proto.Marshal performs
 // (Size, then Marshal with UseCachedSize) encodes the message's current content.
 //
-//verif:props=C16 bounds=VNests/VReqOuter/VScalars2;messages-from-all-byte-strings<=3(quick)/5(thorough);arbitrary-int32-cache-contents maxsteps=8000000
+//verif:props=C16 bounds=VNests/VReqOuter/VScalars2;messages-from-all-byte-strings<=3(quick)/4(thorough);arbitrary-int32-cache-contents maxsteps=8000000
 func H_M5_sizecache() {
 	N := 3
 	if nd.Thorough() {
-		N = 5
+		N = 4
 	}
 	k := nd.Int(0, 2)
 	if k == 1 {
